@@ -889,6 +889,7 @@ impl<'source> CodeGenerator<'source> {
         match c.identify_call() {
             ast::CallType::Function(name) => {
                 let arg_count = self.compile_call_args(&c.args, 0, caller);
+                self.restore_call_location(c.span(), caller);
                 self.add(Instruction::CallFunction(name, arg_count));
             }
             #[cfg(feature = "multi_template")]
@@ -900,15 +901,26 @@ impl<'source> CodeGenerator<'source> {
             ast::CallType::Method(expr, name) => {
                 self.compile_expr(expr);
                 let arg_count = self.compile_call_args(&c.args, 1, caller);
+                self.restore_call_location(c.span(), caller);
                 self.add(Instruction::CallMethod(name, arg_count));
             }
             ast::CallType::Object(expr) => {
                 self.compile_expr(expr);
                 let arg_count = self.compile_call_args(&c.args, 1, caller);
+                self.restore_call_location(c.span(), caller);
                 self.add(Instruction::CallObject(arg_count));
             }
         };
         self.pop_span();
+    }
+
+    /// The body of a call block is compiled inline as the `caller` argument,
+    /// which moves the current line to the end of that body.  The call itself
+    /// belongs to the line of the `{% call %}` tag.
+    fn restore_call_location(&mut self, span: Span, caller: Option<&Caller<'source>>) {
+        if caller.is_some() {
+            self.set_line_from_span(span);
+        }
     }
 
     fn compile_call_args(
